@@ -104,6 +104,9 @@ class Ocp(Stage):
     def _transcribe(self,**kwargs):
         if not self.is_transcribed:
             self._transcribed_placeholders.clear()
+            # The method objects are shared with the user's Ocp and may still hold the
+            # variables of an earlier transcription that an edit has invalidated
+            self._untranscribe_recurse(phase=1)
             self._transcribe_recurse(phase=0,**kwargs)
             self._placeholders_transcribe_recurse(1,self._transcribed_placeholders)
             self._transcribe_recurse(phase=1,**kwargs)
